@@ -85,6 +85,8 @@ def eval_inv(ex, inv, st, extra):
     for i, a in inv_clauses(inv):
         out.append((i, ast.unparse(a), ex.truth(ex.evs(a, loc), loc)))
     st.heap, st.ver = loc.heap, loc.ver
+    st.pc[:] = loc.pc        # facts introduced while evaluating spec text (count instances, enumerations) are axioms
+    st.ghost = loc.ghost
     return out
 
 
@@ -244,14 +246,16 @@ def exec_for(ex, t, st):
     entry = {'entry_' + nm: v for nm, v in st.env.items()}
     if kind == 'index':
         n = dom
-        init_extra = dict(entry, _k=0, _n=n)
+        itl = st.alloc(SList(n, get, None))
+        init_extra = {**entry, '_k': 0, '_n': n, '_iter': itl, '_k%d' % k: 0, '_iter%d' % k: itl}
         for (i, txt, g) in eval_inv(ex, inv, st, init_extra):
             ex.oblige(st, 'inv-init:L%d.%d' % (k, i), g, t, text='loop %d invariant holds on entry: %s' % (k, txt))
         hv = st.fork()
         hv.env.update(entry)
         havoc(ex, hv, t.body, inv)
         kk = z3.Int(fresh_name('_k'))
-        hv.env['_k'], hv.env['_n'] = kk, n
+        hv.env['_k'], hv.env['_n'], hv.env['_iter'] = kk, n, itl
+        hv.env['_k%d' % k], hv.env['_iter%d' % k] = kk, itl
         hv.assume(AND(0 <= kk, kk <= Z(n)))
         for (i, txt, g) in eval_inv(ex, inv, hv, {}):
             hv.assume(g)
@@ -261,7 +265,7 @@ def exec_for(ex, t, st):
         exits = []
         for (s, kd, v) in ex.exec_block(t.body, b):
             if kd in ('next', 'continue'):
-                for (i, txt, g) in eval_inv(ex, inv, s, {'_k': kk + 1}):
+                for (i, txt, g) in eval_inv(ex, inv, s, {'_k': kk + 1, '_k%d' % k: kk + 1}):
                     ex.oblige(s, 'inv-preserved:L%d.%d' % (k, i), g, t, text='loop %d invariant preserved: %s' % (k, txt))
             elif kd == 'break':
                 exits.append((s, 'next', None))
@@ -276,7 +280,8 @@ def exec_for(ex, t, st):
     # ---- iteration over a set: arbitrary order
     S = dom
     empty = SSet.empty(S.elem)
-    init_extra = dict(entry, _done=st.alloc(empty), _iter=st.alloc(S))
+    e0, s0 = st.alloc(empty), st.alloc(S)
+    init_extra = {**entry, '_done': e0, '_iter': s0, '_done%d' % k: e0, '_iter%d' % k: s0}
     for (i, txt, g) in eval_inv(ex, inv, st, init_extra):
         ex.oblige(st, 'inv-init:L%d.%d' % (k, i), g, t, text='loop %d invariant holds on entry: %s' % (k, txt))
     hv = st.fork()
@@ -284,6 +289,7 @@ def exec_for(ex, t, st):
     havoc(ex, hv, t.body, inv)
     D = fresh_value(TSet(S.elem), '_done')
     hv.env['_done'], hv.env['_iter'] = hv.alloc(D), hv.alloc(S)
+    hv.env['_done%d' % k], hv.env['_iter%d' % k] = hv.env['_done'], hv.env['_iter']
     hv.assume(set_subset(D, S))
     for (i, txt, g) in eval_inv(ex, inv, hv, {}):
         hv.assume(g)
@@ -295,7 +301,8 @@ def exec_for(ex, t, st):
     for (s, kd, v) in ex.exec_block(t.body, b):
         if kd in ('next', 'continue'):
             D2 = SSet(lambda y, D=D, x=x: OR(D.member(y), EQ(y, x)), S.elem)
-            for (i, txt, g) in eval_inv(ex, inv, s, {'_done': s.alloc(D2)}):
+            d2r = s.alloc(D2)
+            for (i, txt, g) in eval_inv(ex, inv, s, {'_done': d2r, '_done%d' % k: d2r}):
                 ex.oblige(s, 'inv-preserved:L%d.%d' % (k, i), g, t, text='loop %d invariant preserved: %s' % (k, txt))
         elif kd == 'break':
             exits.append((s, 'next', None))
